@@ -73,13 +73,14 @@ InitC17 ==
         /\ sc = ScArr(<< <<"r", ArrKinds[s][k], fmt, n, [i \in 1..n |-> ArrPat[s][es[i]]]>>, <<"r", "i32", 7>> >>)
   \/ \E s \in {1, 2, 4, 8}, fmt \in 1..2, n \in {7, 8, 9, 16, 17} :      \* longer arrays (batching, alignment)
         /\ Part = (s + fmt + n) % NParts
-        /\ sc = ScArr(<< <<"r", ArrKinds[s][1], fmt, n, [i \in 1..n |-> ArrPat[s][1 + (i % 4)]]>>, <<"r", "i32", 7>> >>)
+        /\ sc = ScArr(<< <<"r", ArrKinds[s][1], fmt, n, [i \in 1..n |-> [j \in 1..s |-> (37 * i + 11 * j) % 256]]>>, <<"r", "i32", 7>> >>)   \* every element different
   \/ \E n \in {0, 1, 2, 9, 10, 11, 99, 100, 101, 255} : Part = n % NParts /\ sc = ScArr(<< <<"r", "blk", BlkData(n)>>, <<"r", "i32", 7>> >>)
   \/ \E n \in 1..4 : \E c \in Compositions(n) : Part = n % NParts /\
         sc = ScArr(<<<<"bh", n>>>> \o [i \in 1..Len(c) |-> <<"bd", SubSeq(BlkData(n), PrefSum(c, i - 1) + 1, PrefSum(c, i))>>] \o << <<"r", "i32", 7>> >>)
   \/ \E n \in 0..3, k \in 0..3 : k <= n /\ Part = (n + k) % NParts /\           \* k bytes sent, then one byte too many, then the rest
         sc = ScArr(<< <<"bh", n>>, <<"bd", SubSeq(BlkData(n), 1, k)>>, <<"bd", [i \in 1..(n - k + 1) |-> 66]>>, <<"bd", SubSeq(BlkData(n), k + 1, n)>>, <<"r", "i32", 7>> >>)
   \/ \E n \in BigLens : Part = n % NParts /\ sc = ScArr(<< <<"bh", n>> >>)
+  \/ Part = 0 /\ sc = ScArr(<< <<"r", "blk", [i \in 1..66000 |-> (i * 7) % 251]>>, <<"r", "i32", 7>> >>)     \* a block longer than 65535 bytes, with its data
 (* C01: every byte string up to MaxUnits + 1 bytes over one representative per character class, bare and as the data of a header, *)
 (* handled by commands that apply every decoding / expression / result API to what they get                                      *)
 C01Alpha == <<65, 49, 48, 35, 34, 39, 40, 41, 44, 59, 58, 42, 63, 32, 10, 13, 46, 45, 69, 0, 128, 64, 47, 72, 66>>
